@@ -567,7 +567,6 @@ Proof.
   unfold to_check. destruct s as [x|p pairs|p keys|p wp w lim].
   - destruct (Nat.eqb (length (s_names x)) (length (s_fields x))) eqn:El; cbn [negb]; [|discriminate].
     apply Nat.eqb_eq in El.
-    destruct (match s_group x with Some _ => _ | None => false end); [discriminate|].
     intros H. inversion H; subst c. clear H.
     unfold cstmt_positions, stmt_positions. cbn [cstmt_exprs cstmt_order_positions stmt_exprs].
     rewrite (map_snd_combine _ _ El). intros q Hq. apply in_or_app. right.
@@ -602,7 +601,6 @@ Proof.
   unfold to_check. destruct s as [x|p pairs|p keys|p wp w lim].
   - destruct (Nat.eqb (length (s_names x)) (length (s_fields x))) eqn:El; cbn [negb]; [|discriminate].
     apply Nat.eqb_eq in El.
-    destruct (match s_group x with Some _ => _ | None => false end); [discriminate|].
     intros H. inversion H; subst c. cbn [cstmt_exprs]. rewrite (map_snd_combine _ _ El). reflexivity.
   - intros H. inversion H; reflexivity.
   - intros H. inversion H; reflexivity.
@@ -944,6 +942,13 @@ End HooksProv.
 
 Section Composite.
 Variable fo : fops.
+Variable re : string -> string -> res bool.
+Variable fmt_v : F fo -> string.
+
+Notation plan_check := (plan_check fo re fmt_v).
+Notation plan_oom := (plan_oom fo re fmt_v).
+Notation check_parsed := (check_parsed fo re fmt_v).
+Notation parse_check := (parse_check fo re fmt_v).
 
 Lemma err_at_nat (Q : nat -> Prop) p : Q p -> err_at Q (Z.of_nat p).
 Proof. intros H. right. exists p. split; [reflexivity|exact H]. Qed.
@@ -951,7 +956,7 @@ Proof. intros H. right. exists p. split; [reflexivity|exact H]. Qed.
 Lemma plan_check_err (Q : nat -> Prop) s c z :
   Forall Q (stmt_own_positions s) -> plan_check s c = PlErr z -> err_at Q z.
 Proof.
-  intros H. unfold plan_check. destruct s as [x| | |]; try discriminate. destruct c; try discriminate.
+  intros H. unfold ParseCheck.plan_check. destruct s as [x| | |]; try discriminate. destruct c; try discriminate.
   cbn [stmt_own_positions] in H. inversion H as [|? ? Hsp Hrest]; subst. inversion Hrest as [|? ? _ Hrest']; subst.
   assert (Hg : forall g, s_group x = Some g -> Q (g_pos g)).
   { intros g Eg. rewrite Eg in Hrest'. apply Forall_app in Hrest'. destruct Hrest' as [_ Hr].
@@ -968,42 +973,45 @@ Proof.
 Qed.
 
 Lemma check_parsed_err (Q : nat -> Prop) s k z :
-  Forall Q (stmt_positions s) -> check_parsed fo s = PCErr k z -> err_at Q z.
+  Forall Q (stmt_positions s) -> check_parsed s = PCErr k z -> err_at Q z.
 Proof.
-  intros H. unfold check_parsed. destruct (to_check s) as [c|] eqn:Et; [|discriminate].
+  intros H. unfold ParseCheck.check_parsed, ParseCheck.plan_stage. destruct (to_check s) as [c|] eqn:Et; [|discriminate].
   assert (Hc : cstmt_ok Q c) by exact (Forall_incl Q _ _ (to_check_positions s c Et) H).
   pose proof (check_stmt_ok fo Q c Hc) as H1.
   destruct (check_stmt fo true c) as [c2|[p|p|]| |]; cbn [okr] in H1; try discriminate.
   - pose proof (check_stmt_calls_ok Q c2 H1) as H2.
     destruct (check_stmt_calls c2) as [u|[p|p|]| |]; cbn [okr] in H2; try discriminate.
-    + destruct (plan_check s c2) as [| |z'] eqn:Ep; try discriminate. intros E; inversion E; subst.
+    + destruct (plan_oom c2); [discriminate|].
+      destruct (plan_check s c2) as [| |z'] eqn:Ep; try discriminate. intros E; inversion E; subst.
       apply (plan_check_err Q s c2); [|exact Ep]. unfold stmt_positions in H. apply Forall_app in H. tauto.
     + intros E; inversion E; subst. apply err_at_nat. exact H2.
   - intros E; inversion E; subst. apply err_at_nat. exact H1.
 Qed.
 
 Lemma check_parsed_ok (Q : nat -> Prop) s s' c a :
-  Forall Q (stmt_positions s) -> check_parsed fo s = PCOk s' c a ->
+  Forall Q (stmt_positions s) -> check_parsed s = PCOk s' c a ->
   s' = s /\ Forall Q (cstmt_positions c).
 Proof.
-  intros H. unfold check_parsed. destruct (to_check s) as [c0|] eqn:Et; [|discriminate].
+  intros H. unfold ParseCheck.check_parsed, ParseCheck.plan_stage. destruct (to_check s) as [c0|] eqn:Et; [|discriminate].
   assert (Hc : cstmt_ok Q c0) by exact (Forall_incl Q _ _ (to_check_positions s c0 Et) H).
   pose proof (check_stmt_ok fo Q c0 Hc) as H1.
   destruct (check_stmt fo true c0) as [c2|[p|p|]| |]; cbn [okr] in H1; try discriminate.
   destruct (check_stmt_calls c2) as [u|[p|p|]| |]; try discriminate.
+  destruct (plan_oom c2); [discriminate|].
   destruct (plan_check s c2); try discriminate; intros E; inversion E; subst; split; [reflexivity|exact H1|reflexivity|exact H1].
 Qed.
 
 (* check_parsed is Checker.build_check followed by the plan tests *)
 Lemma check_parsed_build s c :
   to_check s = Some c ->
-  check_parsed fo s =
+  check_parsed s =
   match build_check fo true c with
-  | Ok c2 => match plan_check s c2 with
-             | PlErr z => PCErr KPlan z
-             | PlProjection => PCOk s c2 false
-             | PlAggregate => PCOk s c2 true
-             end
+  | Ok c2 => if plan_oom c2 then PCOutOfModel
+             else match plan_check s c2 with
+                  | PlErr z => PCErr KPlan z
+                  | PlProjection => PCOk s c2 false
+                  | PlAggregate => PCOk s c2 true
+                  end
   | Err (ESyntax p) =>
       PCErr (match check_stmt fo true c with Ok _ => KCalls | _ => KCheck end) (Z.of_nat p)
   | Err _ => PCOther
@@ -1011,7 +1019,7 @@ Lemma check_parsed_build s c :
   | OutOfModel => PCOutOfModel
   end.
 Proof.
-  intros Et. unfold check_parsed, build_check. rewrite Et.
+  intros Et. unfold ParseCheck.check_parsed, ParseCheck.plan_stage, build_check. rewrite Et.
   destruct (check_stmt fo true c) as [c2|[p|p|]| |]; cbn [Value.bind]; try reflexivity.
   destruct (check_stmt_calls c2) as [u|[p|p|]| |]; cbn [Value.bind]; reflexivity.
 Qed.
@@ -1021,10 +1029,10 @@ Proof. intros E Hnil. subst ts. unfold parse_real, parse_with, parse_query in E.
 
 (* D1: rejections *)
 Theorem parse_check_err_position_thm (q : string) (k : pckind) (z : Z) :
-  parse_check fo q = PCErr k z ->
+  parse_check q = PCErr k z ->
   pos_is_token_start (zstarts (lex q)) z = true /\ pos_in_query q z = true.
 Proof.
-  unfold parse_check. cbv zeta. destruct (pc_oom fo q (lex q)); [discriminate|].
+  unfold ParseCheck.parse_check. cbv zeta. destruct (pc_oom fo q (lex q)); [discriminate|].
   destruct (parse_real fo (lex q)) as [s|z'| |] eqn:Ep; try discriminate.
   - (* the statement was read: checker, call validation, plan builder *)
     intros E. unfold parse_real in Ep.
@@ -1043,17 +1051,17 @@ Qed.
 
 (* the statement as the task words it *)
 Corollary parse_check_err_token_start_thm (q : string) (k : pckind) (z : Z) :
-  parse_check fo q = PCErr k z ->
+  parse_check q = PCErr k z ->
   z = (-1)%Z \/ pos_is_token_start (zstarts (lex q)) z = true.
 Proof. intros E. right. exact (proj1 (parse_check_err_position_thm q k z E)). Qed.
 
 Corollary parse_check_err_in_query_thm (q : string) (k : pckind) (z : Z) :
-  parse_check fo q = PCErr k z -> pos_in_query q z = true.
+  parse_check q = PCErr k z -> pos_in_query q z = true.
 Proof. intros E. exact (proj2 (parse_check_err_position_thm q k z E)). Qed.
 
 (* ... and in plain arithmetic: -1, or 0 <= z < |q| and z is 0 or the offset of a token *)
 Corollary parse_check_err_arith_thm (q : string) (k : pckind) (z : Z) :
-  parse_check fo q = PCErr k z ->
+  parse_check q = PCErr k z ->
   z = (-1)%Z \/
   ((0 <= z < Z.of_nat (String.length q))%Z /\ (z = 0%Z \/ In z (zstarts (lex q)))).
 Proof.
@@ -1068,13 +1076,13 @@ Qed.
 
 (* D2: accepted statements *)
 Theorem parse_check_ok_positions_thm (q : string) (s : StmtParser.stmt) (c : Checker.stmt) (a : bool) :
-  parse_check fo q = PCOk s c a ->
+  parse_check q = PCOk s c a ->
   parse_real fo (lex q) = SOk s /\
   Forall (prov (lex q)) (stmt_positions s) /\
   Forall (prov (lex q)) (cstmt_positions c) /\
   Forall (fun p => pos_in_query q (Z.of_nat p) = true) (stmt_positions s ++ cstmt_positions c).
 Proof.
-  unfold parse_check. cbv zeta. destruct (pc_oom fo q (lex q)); [discriminate|].
+  unfold ParseCheck.parse_check. cbv zeta. destruct (pc_oom fo q (lex q)); [discriminate|].
   destruct (parse_real fo (lex q)) as [s0|z'| |] eqn:Ep; try discriminate.
   intros E. pose proof Ep as Ep'. unfold parse_real in Ep'.
   destruct (parse_tree_positions_are_token_starts_thm q (real_hooks fo) s0
@@ -1093,21 +1101,21 @@ Qed.
    reaches a nil dereference (Proofs/StmtParserProofs.v), the checker twin never panics and never
    returns an error that is not a SyntaxError *)
 Lemma check_parsed_total s :
-  match check_parsed fo s with PCPanic | PCFuel | PCOther => False | _ => True end.
+  match check_parsed s with PCPanic | PCFuel | PCOther => False | _ => True end.
 Proof.
-  unfold check_parsed. destruct (to_check s) as [c|]; [|exact I].
+  unfold ParseCheck.check_parsed, ParseCheck.plan_stage. destruct (to_check s) as [c|]; [|exact I].
   assert (Hc : cstmt_ok (fun _ => True) c) by (unfold cstmt_ok; apply Forall_forall; auto).
   pose proof (check_stmt_ok fo (fun _ => True) c Hc) as H1.
   destruct (check_stmt fo true c) as [c2|[p|p|]| |]; cbn [okr] in H1; try exact I; try contradiction.
   pose proof (check_stmt_calls_ok (fun _ => True) c2 H1) as H2.
   destruct (check_stmt_calls c2) as [u|[p|p|]| |]; cbn [okr] in H2; try exact I; try contradiction.
-  destruct (plan_check s c2); exact I.
+  destruct (plan_oom c2); [exact I|]. destruct (plan_check s c2); exact I.
 Qed.
 
 Theorem parse_check_total_thm (q : string) :
-  match parse_check fo q with PCPanic | PCFuel | PCOther => False | _ => True end.
+  match parse_check q with PCPanic | PCFuel | PCOther => False | _ => True end.
 Proof.
-  unfold parse_check. cbv zeta. destruct (pc_oom fo q (lex q)); [exact I|].
+  unfold ParseCheck.parse_check. cbv zeta. destruct (pc_oom fo q (lex q)); [exact I|].
   unfold parse_real. destruct (parse_with_total (real_hooks fo) (lex q)) as [(s & E)|(z & E)]; rewrite E.
   - apply check_parsed_total.
   - exact I.
@@ -1115,9 +1123,9 @@ Qed.
 
 End Composite.
 
-(* ================================================================ E. when to_check gives None:
-   a statement Parser.Parse returns always has as many FieldNames as Fields, so the only
-   statements outside the checker twin are SELECTs with GROUP BY whose fields use field names *)
+(* ================================================================ E. to_check takes every
+   statement the parser returns: a statement Parser.Parse returns always has as many FieldNames
+   as Fields *)
 
 Definition lens_ok (r : pres (bool * list expr * list string)) : Prop :=
   match r with
@@ -1212,21 +1220,12 @@ Proof.
     destruct r4; discriminate.
 Qed.
 
-(* for a statement the parser returned, to_check gives None exactly for a SELECT with GROUP BY
-   one of whose fields uses the name of a field *)
-Theorem to_check_none_iff h ts s :
-  parse_with h ts = SOk s ->
-  (to_check s = None <->
-   exists x, s = StSelect x /\ s_group x <> None /\
-             existsb (uses_field_name (s_names x)) (s_fields x) = true).
+(* for a statement the parser returned, to_check never gives None: no statement Parser.Parse
+   returns is outside the checker twin (before, a SELECT with GROUP BY one of whose fields used
+   the name of a field was) *)
+Theorem to_check_parsed_some h ts s :
+  parse_with h ts = SOk s -> exists c, to_check s = Some c.
 Proof.
-  intros E. destruct s as [x|p pairs|p keys|p wp w lim]; cbn [to_check].
-  - rewrite (parsed_select_lengths h ts x E), Nat.eqb_refl. cbn [negb]. split.
-    + intros H. exists x. split; [reflexivity|]. destruct (s_group x) as [g|]; [|discriminate].
-      split; [discriminate|]. destruct (existsb _ _); [reflexivity|discriminate].
-    + intros (x' & Ex & Hg & Hu). inversion Ex; subst x'. destruct (s_group x); [|contradiction].
-      rewrite Hu. reflexivity.
-  - split; [discriminate|]. intros (x & Ex & _). discriminate.
-  - split; [discriminate|]. intros (x & Ex & _). discriminate.
-  - split; [discriminate|]. intros (x & Ex & _). discriminate.
+  intros E. destruct s as [x|p pairs|p keys|p wp w lim]; cbn [to_check]; eauto.
+  rewrite (parsed_select_lengths h ts x E), Nat.eqb_refl. cbn [negb]. eauto.
 Qed.
